@@ -159,6 +159,9 @@ def jobs(tier):
     states = [(0.0, 0.0, 0.0), (-2.0, 1.0, 2.0), (1.5, 0.0, -3.0)]
     if tier != 'quick':
         states += [(0.0, 1.0, 2.0), (-2.0, 0.0, -3.0), (1.5, 1.0, 0.0), (-4.0, 3.0, 1.0)]
+    js.append(dict(name='H9c:oms_telescoping:power_mode:from_transceiver', fn='h_oms_telescoping', params=dict(mode='power', start='transceiver'),
+                   cost=100, budget_s=200 if tier == 'quick' else 600))
+    js.append(dict(name='H9e:spliced_span_offset_rule', fn='h_spliced_span_rule', cost=60, budget_s=200 if tier == 'quick' else 600))
     for lib in SELECT_LIBS:
         for st in states:
             js.append(dict(name=f'H9d:auto_selected_amplifier:{lib}:prev_dp={st[0]},prev_voa={st[1]},pref={st[2]}dBm', fn='h_auto_selected',
@@ -166,7 +169,7 @@ def jobs(tier):
     return js
 
 
-def h_oms_telescoping(ctx, mode):
+def h_oms_telescoping(ctx, mode, start='roadm'):
     """set_egress_amplifier over a two-span OMS (booster, in-line amplifier, preamp; types imposed) with symbolic span losses:
     at every amplifier gain = loss since the previous amplifier + change of target (+ VOAs), so the reference channel leaves it
     at reference power + its offset; offsets follow the documented rule (0 before the ROADM)"""
@@ -184,7 +187,8 @@ def h_oms_telescoping(ctx, mode):
                      'params': {'length': 80, 'length_units': 'km', 'loss_coef': 0.2, 'con_in': 0.5, 'con_out': 0.5, 'att_in': 0}}
     amp = lambda u: {'uid': u, 'type': 'Edfa', 'type_variety': 'std_medium_gain', 'operational': {}}      # noqa
     els += [amp('booster'), fib('fiber1'), amp('ila'), fib('fiber2'), amp('preamp')]
-    names = ['roadm A', 'booster', 'fiber1', 'ila', 'fiber2', 'preamp', 'roadm B']
+    # the line starts at ROADM A, or directly at transceiver A (plain terminal, no ROADM at that end)
+    names = ['roadm A' if start == 'roadm' else 'trx A', 'booster', 'fiber1', 'ila', 'fiber2', 'preamp', 'roadm B']
     cx += [{'from_node': a, 'to_node': b} for a, b in zip(names[:-1], names[1:])]
     g, by = build_elements(els, eqpt, connections=cx)
     loss1 = ctx.real('span1_loss_db', lo=5, hi=35)
@@ -206,15 +210,25 @@ def h_oms_telescoping(ctx, mode):
         set_roadm_ref_carrier(r, eqpt)
         set_roadm_per_degree_targets(r, g)
         set_per_degree_design_band(r, g, eqpt)
-    pref_ch = 0.0
-    set_egress_amplifier(g, roadm, eqpt, pref_ch, False, ref)
+    if start == 'roadm':
+        pref_ch = 0.0
+        set_egress_amplifier(g, roadm, eqpt, pref_ch, False, ref)
+        out_roadm = roadm.get_per_degree_ref_power(degree='booster')         # dBm of the reference channel out of the ROADM
+    else:
+        # transceiver power: not given (the reference power is used) or any value, 0 dBm included
+        pref_ch = 2.0
+        tx = ctx.choice('SI tx_power_dbm', ['none', 'given'])
+        txp = ctx.real('tx_power_dbm', lo=-5, hi=5) if tx == 'given' else None
+        eqpt['SI']['default'].tx_power_dbm = txp
+        set_per_degree_design_band(by['trx A'], g, eqpt)
+        set_egress_amplifier(g, by['trx A'], eqpt, pref_ch, False, ref)
+        out_roadm = txp if txp is not None else pref_ch
     nch_db = 10 * __import__('math').log10(40)
-    out_roadm = roadm.get_per_degree_ref_power(degree='booster')         # dBm of the reference channel out of the ROADM
     prev_dp, prev_voa = out_roadm - pref_ch, 0
     chain = [('booster', 0.0, 'fiber'), ('ila', loss1, 'fiber'), ('preamp', loss2, 'roadm')]
     for uid, loss, nxt in chain:
         a = by[uid]
-        info = dict(mode=mode, amp=uid, out_voa_auto=auto_voa)
+        info = dict(mode=mode, amp=uid, out_voa_auto=auto_voa, start=start)
         if mode == 'power':
             ctx.prove(f'{uid}: gain = loss since previous amplifier + change of target + previous VOA',
                       eq(a.effective_gain, loss + a.delta_p - prev_dp + prev_voa), info=info)
@@ -272,3 +286,51 @@ def h_auto_selected(ctx, lib, state):
     fits = bool(pref_total <= model.p_max) and bool(want_gain <= model.gain_flatmax + span.target_extended_gain)
     if fits:
         ctx.prove('no reduction when the rule target fits the selected model', eq(amp.delta_p, 0), info=info)
+
+
+def h_spliced_span_rule(ctx):
+    """real add_missing_fiber_attributes + set_egress_amplifier on booster - fibre - fused - fibre - preamp with symbolic short
+    lengths (the spliced span may need padding): the booster offset follows the documented rule applied to the loss of the
+    WHOLE next span, padding included"""
+    from gnpy.core.network import (set_egress_amplifier, set_roadm_ref_carrier, set_roadm_per_degree_targets,
+                                   set_per_degree_design_band, add_missing_fiber_attributes)
+    from gnpy.topology.request import PathRequest
+    symbolic_ctors(ctx)
+    elems.set_sim_params()
+    eqpt = deepcopy(equipment())
+    span = eqpt['Span']['default']
+    span.power_mode = True
+    span.delta_power_range_db = [-6, 3, 0.5]
+    span.padding = 10
+    span.EOL = 0
+    els, cx = [], []
+    for s in 'AB':
+        els += [{'uid': f'trx {s}', 'type': 'Transceiver'}, {'uid': f'roadm {s}', 'type': 'Roadm'}]
+        cx += [{'from_node': f'trx {s}', 'to_node': f'roadm {s}'}, {'from_node': f'roadm {s}', 'to_node': f'trx {s}'}]
+    L1, L2 = ctx.real('fibre1_km', lo=1, hi=60), ctx.real('fibre2_km', lo=1, hi=60)
+    fib = lambda u, L: {'uid': u, 'type': 'Fiber', 'type_variety': 'SSMF',       # noqa
+                        'params': {'length': L, 'length_units': 'km', 'loss_coef': 0.2, 'con_in': 0.25, 'con_out': 0.25, 'att_in': 0}}
+    amp = lambda u: {'uid': u, 'type': 'Edfa', 'type_variety': 'std_medium_gain', 'operational': {}}      # noqa
+    els += [amp('booster'), fib('fiber1', L1), {'uid': 'splice', 'type': 'Fused', 'params': {'loss': 0.5}}, fib('fiber2', L2), amp('preamp')]
+    names = ['roadm A', 'booster', 'fiber1', 'splice', 'fiber2', 'preamp', 'roadm B']
+    cx += [{'from_node': a, 'to_node': b} for a, b in zip(names[:-1], names[1:])]
+    g, by = build_elements(els, eqpt, connections=cx)
+    add_missing_fiber_attributes(g, eqpt)
+    ref = PathRequest(request_id='ref', source='trx A', destination='trx B', bidir=False, trx_type='', trx_mode='', nodes_list=[],
+                      loose_list=[], format='', path_bandwidth=0, effective_freq_slot=None, nb_channel=40, power=1e-3, tx_power=1e-3,
+                      baud_rate=32e9, spacing=50e9, f_min=191.3e12, f_max=196.1e12, roll_off=0.15, tx_osnr=40, OSNR=11, bit_rate=100e9,
+                      min_spacing=37.5e9, cost=1, penalties={}, equalization_offset_db=0)
+    for r in (by['roadm A'], by['roadm B']):
+        set_roadm_ref_carrier(r, eqpt)
+        set_roadm_per_degree_targets(r, g)
+        set_per_degree_design_band(r, g, eqpt)
+    set_egress_amplifier(g, by['roadm A'], eqpt, 0.0, False, ref)
+    raw = 0.2 * L1 + 0.2 * L2 + 4 * 0.25 + 0.5
+    padded = raw if bool(raw >= span.padding) else span.padding
+    info = dict(padded_by=str(padded - raw))
+    ctx.prove('whole spliced span has at least the padding loss',
+              ge(by['fiber1'].loss + by['splice'].loss + by['fiber2'].loss, span.padding - 1e-9), info=info)
+    ctx.prove('booster offset = slope x (loss of the whole next span incl. padding - reference), rounded and clamped',
+              _rule(ctx, padded, span.span_loss_ref, span.power_slope, -6, 3, 0.5)(by['booster'].delta_p), info=info)
+    ctx.prove('preamp offset before the ROADM is 0', eq(by['preamp'].delta_p, 0), info=info)
+    ctx.prove('preamp gain closes the budget', eq(by['preamp'].effective_gain, padded + by['preamp'].delta_p - by['booster'].delta_p), info=info)
